@@ -6,6 +6,7 @@ import (
 	"strings"
 	"time"
 
+	sasl "github.com/emersion/go-sasl"
 	"github.com/fluffle/goirc/client"
 
 	"verifsim/simnet"
@@ -457,7 +458,7 @@ func genNearValid(g G, me string) string {
 		}
 		return b.String()
 	}
-	switch g.Intn(16) {
+	switch g.Intn(17) {
 	case 0, 1, 2:
 		sub := []string{"LS", "ACK", "NAK", "LIST", "NEW", "DEL", "ls", ""}[g.W(4, 4, 2, 1, 1, 1, 1, 1)]
 		cont := []string{"", "* "}[g.W(4, 1)]
@@ -486,6 +487,13 @@ func genNearValid(g G, me string) string {
 		return ":" + nk + "!u@h KICK " + ch + " " + []string{me, "bob", nk, ""}[g.Intn(4)] + " :" + oddList(g, 2)
 	case 14:
 		return ":" + nk + "!u@h " + []string{"PRIVMSG", "NOTICE"}[g.Intn(2)] + " " + []string{me, ch}[g.Intn(2)] + " :\x01" + []string{"VERSION", "PING", "USERINFO", "ACTION", "", " "}[g.Intn(6)] + []string{"", " ", " x", "\x01", " x\x01"}[g.Intn(5)]
+	case 15:
+		// a CTCP request whose argument the client echoes: long, without spaces,
+		// of one repeated byte or byte pair (continuation bytes, dots, NUL ...)
+		unit := []string{"\xbf", "\x80", ".", "x", "\x00", "\xe4\xb8", "\xf0\x9f\x98\x8a", ". ", "\xc4\x8d"}[g.Intn(9)]
+		n := []int{12, 13, 14, 15, 40, 101, 447, 451, 470}[g.Intn(9)]
+		arg := []string{"", "x"}[g.Intn(2)] + strings.Repeat(unit, n/len(unit)+1)
+		return ":" + nk + "!u@h PRIVMSG " + me + " :\x01" + []string{"PING", "VERSION", "ECHO"}[g.W(4, 1, 1)] + " " + arg + "\x01"
 	default:
 		return "PING " + []string{"", ":", ": ", ":a b", "a b", ":" + strings.Repeat("t", 600)}[g.Intn(6)]
 	}
@@ -599,7 +607,16 @@ func recvAdversary(e *Env) {
 			return
 		}
 	}
-	s := startSession(e, ClientOpts{Nick: "me", Flood: true, Track: track}, func(l *simnet.Link) { l.ChunkMode = g.Intn(4); l.Window = []int{0, 0, 0, 16, 64, 300}[g.Intn(6)] })
+	// configuration the built-in handlers consult: the split length used for
+	// CTCP replies (which echo server-chosen text), a SASL client, wanted
+	// capabilities
+	opts := ClientOpts{Nick: "me", Flood: true, Track: track, SplitLen: []int{0, 0, 13, 14, 40, 100}[g.Intn(6)]}
+	if g.Pct(40) {
+		opts.Sasl = sasl.NewPlainClient("", "user", "pw")
+		opts.Caps = []string{"multi-prefix", "sasl"}
+	}
+	e.Notef("SplitLen=%d sasl=%v", opts.SplitLen, opts.Sasl != nil)
+	s := startSession(e, opts, func(l *simnet.Link) { l.ChunkMode = g.Intn(4); l.Window = []int{0, 0, 0, 16, 64, 300}[g.Intn(6)] })
 	var markers []int
 	s.c.HandleFunc("PRIVMSG", func(c *client.Conn, l *client.Line) {
 		var k int
